@@ -1,5 +1,5 @@
 hdr = r'''#![feature(allocator_api)]
-// Unit BASIC: simple documented functions — get, size, ?, default, and, or, not, xor, first, last, all, any, pop, push, put, insert_if_absent, replace_if_exists, entries, range, push_front, pop_first (C04, C05)
+// Unit BASIC: simple documented functions — get, size, ?, default, and, or, not, xor, first, last, all, any, pop, push, put, insert_if_absent, replace_if_exists, entries, range, push_front, pop_first, the seven type checks and five casts (C04, C05)
 use vstd::prelude::*;
 use std::rc::Rc;
 use vstd::std_specs::iter::IteratorSpec;
@@ -281,5 +281,25 @@ out += fn("f_pop_first", F+"list/list_manipulations/pop_first.rs", "f.pop_first"
 //@@ after "new_list.push(val.clone());"
                                     proof { assert(lst@.subrange(1, it.index@).push(lst@[it.index@]) =~= lst@.subrange(1, it.index@ + 1)); }
 ''')
+# ---- batch 3: type checks and casts
+T=F.replace("functions/","functions/")+"type_group/"
+for (mod, file, fid, variant, doc) in [
+    ("f_is_array","check_types/is_array.rs","f.is_array","o matches Some(JsonValue::Array(_))","(array? a): true exactly when a is a list; false otherwise, also when a is absent"),
+    ("f_is_bool","check_types/is_bool.rs","f.is_bool","o matches Some(JsonValue::Boolean(_))","(bool? a): true exactly when a is a boolean; false otherwise, also when a is absent"),
+    ("f_is_empty","check_types/is_empty.rs","f.is_empty","o is None","(empty? a): true exactly when a gives nothing"),
+    ("f_is_null","check_types/is_null.rs","f.is_null","o == Some(JsonValue::Null)","(null? a): true exactly when a is null; false otherwise, also when a is absent"),
+    ("f_is_number","check_types/is_number.rs","f.is_number","o matches Some(JsonValue::Number(_))","(number? a): true exactly when a is a number; false otherwise, also when a is absent"),
+    ("f_is_object","check_types/is_object.rs","f.is_object","o matches Some(JsonValue::Object(_))","(object? a): true exactly when a is an object; false otherwise, also when a is absent"),
+    ("f_is_string","check_types/is_string.rs","f.is_string","o matches Some(JsonValue::String(_))","(string? a): true exactly when a is a string; false otherwise, also when a is absent"),
+]:
+    out += fn(mod, T+file, fid, "        { let o = arg(self.0@, value, 0); Some(jbool(%s)) }" % variant, doc)
+for (mod, file, fid, pat, doc) in [
+    ("f_as_array","cast/as_array.rs","f.as_array","JsonValue::Array(_)","(as_array a): a when it is a list, nothing otherwise"),
+    ("f_as_bool","cast/as_bool.rs","f.as_bool","JsonValue::Boolean(_)","(as_boolean a): a when it is a boolean, nothing otherwise"),
+    ("f_as_number","cast/as_number.rs","f.as_number","JsonValue::Number(_)","(as_number a): a when it is a number, nothing otherwise"),
+    ("f_as_object","cast/as_object.rs","f.as_object","JsonValue::Object(_)","(as_object a): a when it is an object, nothing otherwise"),
+    ("f_as_string","cast/as_string.rs","f.as_string","JsonValue::String(_)","(as_string a): a when it is a string, nothing otherwise"),
+]:
+    out += fn(mod, T+file, fid, "        match arg(self.0@, value, 0) { Some(v) => if v matches %s { Some(v) } else { None }, None => None }" % pat, doc)
 out += "\n} // verus!\nfn main() {}\n"
 open('/verif/units/BASIC.rs','w').write(out)
